@@ -553,6 +553,12 @@ def gen_cases(fmt, backend, tier, seed):
                     combo = {"block_size": 1, "parallelism": 1}
                     combo[key] = v
                     add("D", pw(c0, 9), c0, settings_dict(base_salts[0], costs_a[0], ident, combo), ctx0, n=9)
+        if backend != "builtin":
+            # the working memory 128 * N * r on both sides of the C library's own default limit (32 MiB), with p = 1
+            # and p = 2 (the library has to ask for what the cost needs: N * r = 2^17, 2^18 -- the limit itself --, 2^19)
+            for ln, r, p_ in ((5, 4096, 1), (6, 4096, 1), (6, 4096, 2), (7, 4096, 1), (15, 8, 1), (13, 32, 1)) if not quick else ((6, 4096, 1), (6, 4096, 2), (13, 32, 1)):
+                for ident in idents:
+                    add("D", pw(c0, 9), c0, settings_dict(base_salts[0], ln, ident, {"block_size": r, "parallelism": p_}), ctx0, n=9)
     if ax["ctx"]:
         # users/realms crossed with every length (the padding / append rules are length dependent)
         for cx in ctx_full:
